@@ -1195,7 +1195,7 @@ func c11LeaderContextErrorsRecognised(r *fw.Run) {
 	r.Rule("C11-R10", "in both single-flight layers the leader records the state of its own context in the shared record when it finishes with an error, before the wake-up, and a follower returns the shared error only after a test of that record")
 	type layer struct {
 		name, recType, errField, doneField string
-		writers, readers               []string
+		writers, readers                   []string
 	}
 	layers := []layer{
 		{"subgraph", "SingleFlightItem", "err", "loaded", []string{"Loader.loadByContext"}, []string{"Loader.loadByContext"}},
